@@ -165,6 +165,7 @@ func init() {
 		extra: map[string]func([]string){
 			"genprogs": c01GenProgs,
 			"run":      c01Run,
+			"topouts":  func(a []string) { fmt.Fprintln(hx.Out, readTopOuts(a[0], a[1])) },
 		},
 	}
 }
